@@ -226,9 +226,10 @@ func clearCutRejections(t *txrec, head *blk, gasPrice *big.Int, isLocal, known b
 }
 
 // bump verdict for a replacement of old by neu.
-//   +1 : the required bump is met (must replace)
-//   -1 : clearly below (must be refused)
-//    0 : inside the rounding zone of the integer percentage (either outcome accepted)
+//
+//	+1 : the required bump is met (must replace)
+//	-1 : clearly below (must be refused)
+//	 0 : inside the rounding zone of the integer percentage (either outcome accepted)
 func bumpVerdict(old, neu *big.Int, bump uint64) int {
 	if neu.Cmp(old) <= 0 {
 		return -1
@@ -403,9 +404,10 @@ func newUniverse(pre *view, fresh []*txrec) *universe {
 
 // explainGone says by which rule transaction t (of the universe, absent afterwards) may
 // have left. "" = no rule allows it.
-//   local:      sender was in pool.Locals() before the operation
-//   maxPrice:   highest price threshold in force during the operation
-//   expiry:     the lifetime rule may have fired (queued, non-local)
+//
+//	local:      sender was in pool.Locals() before the operation
+//	maxPrice:   highest price threshold in force during the operation
+//	expiry:     the lifetime rule may have fired (queued, non-local)
 func explainGone(t *txrec, head *blk, u *universe, lim limits, local bool, maxPrice *big.Int, expiry bool) string {
 	a := t.from.addr
 	if t.nonce < head.nonce(a) {
